@@ -76,6 +76,9 @@ type virtualStreamListener struct {
 	acceptCh    <-chan acceptResponse
 	closeCh     chan struct{}
 	onCloseFunc OnCloseFunc
+	// handBack gives a connection back to the shared listener, for the handles
+	// that are still open.
+	handBack func(acceptResponse)
 }
 
 var _ StreamListener = (*virtualStreamListener)(nil)
@@ -89,6 +92,17 @@ func (sl *virtualStreamListener) AcceptStream() (transport.StreamConn, error) {
 	case acceptResponse, ok := <-acceptCh:
 		if !ok {
 			return nil, net.ErrClosed
+		}
+		// If the listener was closed while this call was in flight, both cases
+		// can be ready and the runtime picks at random. A closed listener must
+		// not take a connection: give it to the ones that are still open.
+		select {
+		case <-sl.closeCh:
+			if sl.handBack != nil {
+				sl.handBack(acceptResponse)
+			}
+			return nil, net.ErrClosed
+		default:
 		}
 		return acceptResponse.conn, acceptResponse.err
 	case <-sl.closeCh:
@@ -129,6 +143,7 @@ type readRequest struct {
 type virtualPacketConn struct {
 	net.PacketConn
 	readCh chan readRequest
+	doneCh <-chan struct{} // closed when the shared socket is released
 
 	mu          sync.Mutex // Mutex to protect against race conditions when closing the connection.
 	closeCh     chan struct{}
@@ -159,6 +174,28 @@ func (pc *virtualPacketConn) ReadFrom(p []byte) (int, net.Addr, error) {
 	}
 
 	resp := <-respCh
+	// If the connection was closed while this call was in flight, its request
+	// may still have been served. A closed connection must not take a datagram:
+	// pass it on to a reader that is still open.
+	select {
+	case <-pc.closeCh:
+		// Not on the caller's goroutine: its read must fail right away.
+		pkt := append([]byte(nil), p[:resp.n]...)
+		go func() {
+			select {
+			case req := <-pc.readCh:
+				n := copy(req.buffer, pkt)
+				req.respCh <- struct {
+					n    int
+					addr net.Addr
+					err  error
+				}{n, resp.addr, resp.err}
+			case <-pc.doneCh:
+			}
+		}()
+		return 0, nil, net.ErrClosed
+	default:
+	}
 	return resp.n, resp.addr, resp.err
 }
 
@@ -223,6 +260,9 @@ func (m *multiStreamListener) Acquire() (StreamListener, error) {
 		m.doneCh = make(chan struct{})
 		acceptCh, doneCh := m.acceptCh, m.doneCh
 		go func() {
+			// acceptCh is never closed: a handle may still be handing a
+			// connection back on it. Every handle is closed by the time this
+			// loop ends, so nobody waits on it.
 			for {
 				m.mu.Lock()
 				ln := m.ln
@@ -233,7 +273,6 @@ func (m *multiStreamListener) Acquire() (StreamListener, error) {
 				}
 				conn, err := ln.AcceptStream()
 				if errors.Is(err, net.ErrClosed) {
-					close(acceptCh)
 					return
 				}
 				select {
@@ -244,7 +283,6 @@ func (m *multiStreamListener) Acquire() (StreamListener, error) {
 					if conn != nil {
 						conn.Close()
 					}
-					close(acceptCh)
 					return
 				}
 			}
@@ -252,10 +290,23 @@ func (m *multiStreamListener) Acquire() (StreamListener, error) {
 	}
 
 	m.count++
+	acceptCh, doneCh := m.acceptCh, m.doneCh
 	return &virtualStreamListener{
 		addr:     m.ln.Addr(),
 		acceptCh: m.acceptCh,
 		closeCh:  make(chan struct{}),
+		handBack: func(r acceptResponse) {
+			// Not on the caller's goroutine: its accept must fail right away.
+			go func() {
+				select {
+				case acceptCh <- r:
+				case <-doneCh:
+					if r.conn != nil {
+						r.conn.Close()
+					}
+				}
+			}()
+		},
 		onCloseFunc: func() error {
 			m.mu.Lock()
 			defer m.mu.Unlock()
@@ -329,6 +380,7 @@ func (m *multiPacketListener) Acquire() (net.PacketConn, error) {
 	return &virtualPacketConn{
 		PacketConn: m.pc,
 		readCh:     m.readCh,
+		doneCh:     m.doneCh,
 		closeCh:    make(chan struct{}),
 		onCloseFunc: func() error {
 			m.mu.Lock()
